@@ -180,6 +180,66 @@ theorem euler_step_pos (y f : List α) (ub : List (Option α)) (h : α)
     · exact zero_lt_one
     · exact hv
 
+omit [IsStrictOrderedRing α] in
+/-- **when the arithmetic succeeds** (success characterisation of `maxEulerStep`): exactly when there is at least one
+    substance and every index the loop touches exists — in particular whenever `y`, `ub`, `f` have one entry per substance. -/
+theorem euler_step_defined (y : List α) (ub : List (Option α)) (f : List α) (hne : f ≠ [])
+    (hy : f.length ≤ y.length) (hub : f.length ≤ ub.length) : ∃ h, maxEulerStep y ub f = .ok h := by
+  have hsb : ∀ (fs : List α) (idx : ℕ), idx + fs.length ≤ y.length → idx + fs.length ≤ ub.length →
+      ∃ bs, stepBounds y ub idx fs = .ok bs ∧ bs.length = fs.length := by
+    intro fs
+    induction fs with
+    | nil => intro idx _ _; exact ⟨[], rfl, rfl⟩
+    | cons fc t ih =>
+      intro idx h1 h2
+      simp only [List.length_cons] at h1 h2
+      have hiy : idx < y.length := by omega
+      have hiu : idx < ub.length := by omega
+      obtain ⟨bs, hbs, hl⟩ := ih (idx + 1) (by omega) (by omega)
+      have hone : ∃ b, stepBoundAt y ub idx fc = .ok b := by
+        unfold stepBoundAt
+        rw [List.getElem?_eq_getElem hiy, List.getElem?_eq_getElem hiu]
+        split_ifs <;> exact ⟨_, rfl⟩
+      obtain ⟨b, hb⟩ := hone
+      exact ⟨b :: bs, by simp [stepBounds, hb, hbs], by simp [hl]⟩
+  obtain ⟨bs, hbs, hl⟩ := hsb f 0 (by omega) (by omega)
+  cases bs with
+  | nil => exact absurd (List.length_eq_zero_iff.mp hl.symm) hne
+  | cons b t => exact ⟨capAtOne (t.foldl minInf2 b), by simp [maxEulerStep, hbs, minInf]⟩
+
+/-- **zero step iff a component sits on the bound it moves towards** (both directions; inside the box). -/
+theorem euler_step_zero_iff (y f : List α) (ub : List (Option α)) (h : α)
+    (hrun : maxEulerStep y ub f = .ok h)
+    (hy : ∀ (i : ℕ) yi, y[i]? = some yi → 0 ≤ yi)
+    (hub : ∀ (i : ℕ) yi u, y[i]? = some yi → ub[i]? = some (some u) → yi ≤ u) :
+    h = 0 ↔ ∃ (i : ℕ) (yi fi : α), y[i]? = some yi ∧ f[i]? = some fi ∧
+      ((fi < 0 ∧ yi = 0) ∨ (0 < fi ∧ ub[i]? = some (some yi))) := by
+  obtain ⟨h0, _, hbox⟩ := euler_step_safe y f ub h hrun hy hub
+  constructor
+  · intro hz
+    obtain ⟨i, yi, fi, hyi, hfi, hcase⟩ := euler_step_tight y f ub h hrun (by rw [hz]; exact zero_lt_one)
+    refine ⟨i, yi, fi, hyi, hfi, ?_⟩
+    rcases hcase with ⟨hneg, he⟩ | ⟨hpos, u, hu, he⟩
+    · left; rw [hz] at he; exact ⟨hneg, by simpa using he⟩
+    · right; rw [hz] at he
+      have : yi = u := by simpa using he
+      exact ⟨hpos, by rw [this]; exact hu⟩
+  · rintro ⟨i, yi, fi, hyi, hfi, hcase⟩
+    obtain ⟨hlo, hhi⟩ := hbox i yi fi hyi hfi
+    rcases hcase with ⟨hneg, hz⟩ | ⟨hpos, hu⟩
+    · rw [hz, zero_add] at hlo
+      have : h * fi ≤ 0 := mul_nonpos_of_nonneg_of_nonpos h0 hneg.le
+      have h2 : h * fi = 0 := le_antisymm this hlo
+      rcases mul_eq_zero.mp h2 with h3 | h3
+      · exact h3
+      · exact absurd h3 hneg.ne
+    · have := hhi yi hu
+      have h2 : h * fi ≤ 0 := by linarith
+      have h3 : 0 ≤ h * fi := mul_nonneg h0 hpos.le
+      rcases mul_eq_zero.mp (le_antisymm h2 h3) with h4 | h4
+      · exact h4
+      · exact absurd h4 hpos.ne'
+
 /-- **the upper-bound side of the loop is redundant for conserved dynamics.**  Suppose every step that keeps the state
     non-negative also keeps it below the bounds (`hinv` — exactly what `upper_bound_valid` gives for a balanced system,
     because the Euler update `y + t·f` carries the element totals of `y`: `B·f = 0`, C05 `invariants_exact`).  Then the
@@ -286,6 +346,9 @@ theorem euler_step_cb_safe {σ : Type} [DecidableEq σ] (keys : List σ) (comps 
       ∀ (i : ℕ) yi fi, y[i]? = some yi → f[i]? = some fi →
         0 ≤ yi + h * fi ∧ ∀ u, ub[i]? = some (some u) → yi + h * fi ≤ u := by
   unfold maxEulerStepCb at hrun
+  by_cases hemp : rs.isEmpty = true
+  · rw [if_pos hemp] at hrun; cases hrun
+  rw [if_neg hemp] at hrun
   cases hub : EqSolve.upperConcBounds comps y with
   | error e => rw [hub] at hrun; simp at hrun
   | ok ub =>
@@ -315,6 +378,197 @@ theorem euler_step_cb_safe {σ : Type} [DecidableEq σ] (keys : List σ) (comps 
       exact ⟨ub, f, rfl, rfl, hsafe⟩
 
 end Step
+
+/-! ## the Euler update carries the element totals: `hinv` / `htot` derived from balance (C05) -/
+section Conservation
+variable {α : Type} [Field α] [LinearOrder α] [IsStrictOrderedRing α] {σ : Type} [DecidableEq σ]
+
+/-- **the generated right-hand side keeps every element total** in the very terms `upper_conc_bounds` uses: for a system that
+    passes the gate `check_balance(strict=True)` (C05 `accept_iff_balanced`), compositions with duplicate-free keys (Python
+    dicts) and every non-charge key `k`:  `Σ_i a_ik · rates(c)[i] = 0` for EVERY concentration function `c`. -/
+theorem rates_keep_element_totals {σ : Type} [DecidableEq σ] (keys : List σ) (comps : List (EqSolve.Comp α))
+    (rs : List (Reaction σ α)) (c : σ → α)
+    (hav : callbackAvailable keys comps rs = true) (hne : comps ≠ []) (hkl : keys.length = comps.length)
+    (hnd : ∀ comp ∈ comps, (comp.map Prod.fst).Nodup) (k : ℕ) (hk : k ≠ 0) :
+    (List.zipWith (fun w v => w * v) (comps.map fun comp => compWeight comp k)
+      (keys.map fun s => valueAt (sysRates c rs none none) s)).sum = 0 := by
+  set subs := toSubstances keys comps with hsubs
+  have hall : ∀ sc ∈ subs, ∃ comp, sc.2 = some comp := by
+    intro sc hsc
+    rw [hsubs, toSubstances] at hsc
+    obtain ⟨i, hi, rfl⟩ := List.mem_iff_getElem.mp hsc
+    simp
+  have hsne : subs ≠ [] := by
+    rw [hsubs, toSubstances]
+    intro h
+    have := congrArg List.length h
+    simp only [List.length_zipWith, List.length_nil] at this
+    have : comps.length = 0 := by omega
+    exact hne (List.length_eq_zero_iff.mp this)
+  have hacc : checkBalance subs rs true = BalanceResult.ok := by
+    simpa [callbackAvailable] using hav
+  have hbal := (C05.accept_iff_balanced subs rs true hall (Or.inl hsne)).mp hacc
+  -- rewrite the weighted sum as a sum over the substance dict
+  have hz : List.zipWith (fun w v => w * v) (comps.map fun comp => compWeight comp k)
+        (keys.map fun s => valueAt (sysRates c rs none none) s) =
+      subs.map fun sc => (RingHom.id α) (compAt sc (k : ℤ)) * (rs.map fun r => contribution c r sc.1).sum := by
+    rw [hsubs, toSubstances, List.map_zipWith, List.zipWith_map_left, List.zipWith_map_right, List.zipWith_comm]
+    clear hav hne hkl hall hsne hacc hbal hsubs subs
+    induction keys generalizing comps with
+    | nil => simp
+    | cons s t ih =>
+      cases comps with
+      | nil => simp
+      | cons comp cs =>
+        simp only [List.zipWith_cons_cons]
+        rw [ih cs (fun comp' h => hnd comp' (List.mem_cons_of_mem _ h))]
+        congr 1
+        simp only [RingHom.id_apply, compAt]
+        rw [compWeight_eq_compGet comp (hnd comp List.mem_cons_self) k hk]
+        congr 1
+        simp only [sysRates]
+        exact valueAt_sysRatesNoFeed_contribution c rs none s (by intro ks h; cases h)
+  rw [hz, weighted_rates_eq]
+  apply List.sum_eq_zero
+  intro x hx
+  obtain ⟨r, hr, rfl⟩ := List.mem_map.mp hx
+  have : compSum r (k : ℤ) subs = 0 := hbal r hr (k : ℤ)
+  simp [this]
+
+
+/-- **`htot` derived**: the explicit Euler update of ANY length `t` carries the element totals of `y`
+    (`compositionConc comps (y + t·f(y)) k = compositionConc comps y k`) for every system that has the callback. -/
+theorem euler_update_keeps_totals (keys : List σ) (comps : List (EqSolve.Comp α)) (rs : List (Reaction σ α)) (y f : List α) (t : α)
+    (hav : callbackAvailable keys comps rs = true) (hkl : keys.length = comps.length) (hyl : y.length = comps.length)
+    (hnd : ∀ comp ∈ comps, (comp.map Prod.fst).Nodup) (hf : fvec keys rs y = .ok f) (k : ℕ) (hk : k ≠ 0) :
+    EqSolve.compositionConc comps (eulerNext y t f) k = EqSolve.compositionConc comps y k := by
+  have hfe := fvec_ok hf
+  have hfl : y.length = f.length := by rw [hfe]; simp [hyl, hkl]
+  rw [compositionConc_eq_weighted, compositionConc_eq_weighted, weighted_eulerNext _ y f t hfl]
+  cases comps with
+  | nil => simp
+  | cons c0 cs =>
+    rw [hfe, rates_keep_element_totals keys (c0 :: cs) rs _ hav (by simp) hkl hnd k hk]
+    simp
+
+/-- **the step of the callback stays within the supply of ANY state with the same element totals** (e.g. the initial state
+    `c₀` of a trajectory through `y`): `y + h·f(y) ≤ upper_conc_bounds(c₀)` componentwise — `upper_bound_valid` with `htot`
+    discharged by `euler_update_keeps_totals`. -/
+theorem euler_step_cb_within_supply (keys : List σ) (comps : List (EqSolve.Comp α)) (rs : List (Reaction σ α)) (y c0 : List α) (h : α)
+    (hav : callbackAvailable keys comps rs = true) (hkl : keys.length = comps.length)
+    (hnd : ∀ comp ∈ comps, (comp.map Prod.fst).Nodup)
+    (hrun : maxEulerStepCb keys comps rs y = .ok h)
+    (hy : ∀ v ∈ y, 0 ≤ v) (hc : ∀ comp ∈ comps, ∀ p ∈ comp, p.1 ≠ 0 → 0 < p.2)
+    (ub0 : List (Option α)) (hub0 : EqSolve.upperConcBounds comps c0 = .ok ub0)
+    (hsame : ∀ k, k ≠ 0 → EqSolve.compositionConc comps y k = EqSolve.compositionConc comps c0 k) :
+    ∃ f, fvec keys rs y = .ok f ∧
+      ∀ (i : ℕ) yi fi u, y[i]? = some yi → f[i]? = some fi → ub0[i]? = some (some u) → yi + h * fi ≤ u := by
+  obtain ⟨ub, f, hub, hf, h0, _, hbox⟩ := euler_step_cb_safe keys comps rs y h hrun hy hc
+  refine ⟨f, hf, ?_⟩
+  intro i yi fi u hyi hfi hu
+  have hyl : y.length = comps.length := by
+    unfold EqSolve.upperConcBounds at hub
+    split_ifs at hub with hl
+    exact not_not.mp hl
+  have hfl : y.length = f.length := by rw [fvec_ok hf]; simp [hyl, hkl]
+  have hnl : (eulerNext y h f).length = comps.length := by rw [eulerNext_length y f h hfl, hyl]
+  have hnn : ∀ v ∈ eulerNext y h f, 0 ≤ v := by
+    intro v hv
+    obtain ⟨j, hj, rfl⟩ := List.mem_iff_getElem.mp hv
+    have hj' := List.getElem?_eq_getElem hj
+    rw [eulerNext_getElem?] at hj'
+    cases hyj : y[j]? with
+    | none => rw [hyj] at hj'; simp at hj'
+    | some yj =>
+      cases hfj : f[j]? with
+      | none => rw [hyj, hfj] at hj'; simp at hj'
+      | some fj =>
+        rw [hyj, hfj] at hj'
+        simp only [Option.some.injEq] at hj'
+        rw [← hj']
+        exact (hbox j yj fj hyj hfj).1
+  have hil : i < comps.length := by
+    have := (List.getElem?_eq_some_iff.mp hyi).1
+    omega
+  have hv := upper_bound_valid comps c0 (eulerNext y h f) ub0 hub0 hnl hnn
+    (fun comp hcomp p hp hk => (hc comp hcomp p hp hk).le)
+    (fun k hk => by rw [euler_update_keeps_totals keys comps rs y f h hav hkl hyl hnd hf k hk, hsame k hk])
+    i hil u hu (fun p hp hk => hc _ (List.getElem_mem _) p hp hk)
+  have hget : (eulerNext y h f)[i]? = some (yi + h * fi) := by
+    rw [eulerNext_getElem?, hyi, hfi]
+  have : (eulerNext y h f)[i]'(hnl ▸ hil) = yi + h * fi := (List.getElem?_eq_some_iff.mp hget).2
+  rw [← this]
+  exact hv
+
+/-- **`hinv` derived: for every system that has the callback the upper-bound branch never decides.**  Whenever
+    `max_euler_step_cb` returns `h`, the loop WITHOUT the branch `fcomp > 0 → (upper_bounds[idx] − y[idx]) / fcomp`
+    (all bounds `inf`) returns the same `h`. -/
+theorem euler_step_cb_upper_side_redundant (keys : List σ) (comps : List (EqSolve.Comp α)) (rs : List (Reaction σ α)) (y : List α) (h : α)
+    (hav : callbackAvailable keys comps rs = true) (hkl : keys.length = comps.length)
+    (hnd : ∀ comp ∈ comps, (comp.map Prod.fst).Nodup)
+    (hrun : maxEulerStepCb keys comps rs y = .ok h)
+    (hy : ∀ v ∈ y, 0 ≤ v) (hc : ∀ comp ∈ comps, ∀ p ∈ comp, p.1 ≠ 0 → 0 < p.2) :
+    ∃ f, fvec keys rs y = .ok f ∧ maxEulerStep y (y.map fun _ => none) f = .ok h := by
+  obtain ⟨ub, f, hub, hf, _, _, _⟩ := euler_step_cb_safe keys comps rs y h hrun hy hc
+  refine ⟨f, hf, ?_⟩
+  have hrun' : maxEulerStep y ub f = .ok h := by
+    unfold maxEulerStepCb at hrun
+    by_cases hemp : rs.isEmpty = true
+    · rw [if_pos hemp] at hrun; cases hrun
+    rw [if_neg hemp, hub, hf] at hrun
+    exact hrun
+  have hyl : y.length = comps.length := by
+    unfold EqSolve.upperConcBounds at hub
+    split_ifs at hub with hl
+    exact not_not.mp hl
+  have hfl : y.length = f.length := by rw [fvec_ok hf]; simp [hyl, hkl]
+  have hfne : f ≠ [] := by
+    intro hfe
+    subst hfe
+    simp [maxEulerStep, stepBounds, minInf] at hrun'
+  obtain ⟨h0, hrun0⟩ := euler_step_defined y (y.map fun _ => none) f hfne (by omega) (by simp; omega)
+  have := euler_step_upper_side_redundant y f ub (y.map fun _ => none) h h0 hrun' hrun0
+    (by
+      intro i b hb
+      rw [List.getElem?_map] at hb
+      cases hyi : y[i]? with
+      | none => rw [hyi] at hb; simp at hb
+      | some _ => rw [hyi] at hb; simp at hb; exact hb.symm)
+    (fun i yi hyi => hy yi (List.mem_of_getElem? hyi))
+    (by
+      intro t ht hnn i yi fi u hyi hfi hu
+      have hnl : (eulerNext y t f).length = comps.length := by rw [eulerNext_length y f t hfl, hyl]
+      have hnn' : ∀ v ∈ eulerNext y t f, 0 ≤ v := by
+        intro v hv
+        obtain ⟨j, hj, rfl⟩ := List.mem_iff_getElem.mp hv
+        have hj' := List.getElem?_eq_getElem hj
+        rw [eulerNext_getElem?] at hj'
+        cases hyj : y[j]? with
+        | none => rw [hyj] at hj'; simp at hj'
+        | some yj =>
+          cases hfj : f[j]? with
+          | none => rw [hyj, hfj] at hj'; simp at hj'
+          | some fj =>
+            rw [hyj, hfj] at hj'
+            simp only [Option.some.injEq] at hj'
+            rw [← hj']
+            exact hnn j yj fj hyj hfj
+      have hil : i < comps.length := by
+        have := (List.getElem?_eq_some_iff.mp hyi).1
+        omega
+      have hv := upper_bound_valid comps y (eulerNext y t f) ub hub hnl hnn'
+        (fun comp hcomp p hp hk => (hc comp hcomp p hp hk).le)
+        (fun k hk => euler_update_keeps_totals keys comps rs y f t hav hkl hyl hnd hf k hk)
+        i hil u hu (fun p hp hk => hc _ (List.getElem_mem _) p hp hk)
+      have hget : (eulerNext y t f)[i]? = some (yi + t * fi) := by
+        rw [eulerNext_getElem?, hyi, hfi]
+      have : (eulerNext y t f)[i]'(hnl ▸ hil) = yi + t * fi := (List.getElem?_eq_some_iff.mp hget).2
+      rw [← this]
+      exact hv)
+  rw [this]
+  exact hrun0
+
+end Conservation
 
 /-! ## the generated right-hand side: quasi-positivity -/
 section Rhs
@@ -366,27 +620,16 @@ variable {σ : Type} [DecidableEq σ] {R : Type} [CommRing R]
 
 /-- **first_order_is_linear.**  If every reaction has exactly one active reactant, of order one (`reac == {j: 1}`; products
     and inactive parts arbitrary), the generated right-hand side is LINEAR: `rates(c)[s] = Σ_j M[s][j]·c[j]` for every `c`
-    in any commutative ring, with the explicit matrix `M[s][j] = Σ_{r : reactant r = j} net r s · k_r`
-    (`firstOrderMatrix keys rs = [[M[s][j] for j in keys] for s in keys]`). -/
+    in any commutative ring, where `M[s][j] = firstOrderEntry rs s j = Σ_{r : reac r = {j: 1}} net r s · k_r` is the entry of
+    the executable `firstOrderMatrix` (lemma `firstOrderEntry_eq_explicit`) that the driver prints and the harness
+    exponentiates. -/
 theorem first_order_is_linear (keys : List σ) (hnd : keys.Nodup) (rs : List (Reaction σ R))
     (hfo : ∀ r ∈ rs, ∃ j, j ∈ keys ∧ r.reac = [(j, 1)])
     (c : σ → R) (keys? : Option (List σ)) (s : σ) (hs : ∀ ks, keys? = some ks → s ∈ ks) :
-    valueAt (sysRates c rs keys? none) s = (keys.map fun j => firstOrderEntry rs s j * c j).sum ∧
-      (∀ j, firstOrderEntry rs s j =
-        (rs.map fun r => if r.reac = [(j, 1)] then ((netStoich r s : ℤ) : R) * r.param else 0).sum) ∧
-      firstOrderMatrix keys rs = keys.map fun s => keys.map fun j => firstOrderEntry rs s j := by
-  refine ⟨?_, ?_, rfl⟩
-  · simp only [sysRates]
-    rw [valueAt_sysRatesNoFeed_contribution c rs keys? s hs, sum_contribution_eq_matVec keys hnd c s rs hfo,
-      matVecEntry_eq_sum]
-  · intro j
-    rw [firstOrderEntry_eq_sum]
-    congr 1
-    apply List.map_congr_left
-    intro r _
-    by_cases h : r.reac = [(j, 1)]
-    · rw [if_pos h, if_pos (firstOrderReactant_of_reac h)]
-    · rw [if_neg h, if_neg (fun h' => h (firstOrderReactant_eq_some h'))]
+    valueAt (sysRates c rs keys? none) s = (keys.map fun j => firstOrderEntry rs s j * c j).sum := by
+  simp only [sysRates]
+  rw [valueAt_sysRatesNoFeed_contribution c rs keys? s hs, sum_contribution_eq_matVec keys hnd c s rs hfo,
+    matVecEntry_eq_sum]
 
 /-- **off-diagonal entries are non-negative** (`M` is a Metzler matrix — `exp(M t)` maps the non-negative orthant into
     itself) for non-negative rate constants, under the same hypothesis as `quasi_positive`. -/
@@ -507,6 +750,75 @@ theorem binary_rev_solves_system (a b p : σ) (hab : a ≠ b) (hap : a ≠ p) (h
   · simp [binaryState, h0]
   · simp [binaryState, h0, hab.symm]
   · simp [binaryState, h0, hap.symm, hbp.symm]
+
+/-- **equal initial concentrations `[A]₀ = [B]₀ = c₀`** — inside the property's quantifier, but `binary_irrev` is `0/0` there
+    (C17 `binary_irrev_init` needs `major ≠ minor`).  The solution is the dimerisation law with `kf/2`:
+    `[A] = [B] = dimerization_irrev(t, kf/2, c₀) = 1/(1/c₀ + kf·t)`, `[P] = prod + c₀ − [A]`; it solves the system chempy
+    generates for `A + B → P` for every substance `s`, every `t ≥ 0`. -/
+theorem binary_irrev_equal_solves_system (a b p : σ) (hab : a ≠ b) (hap : a ≠ p) (hbp : b ≠ p)
+    (kf prod c0 t : ℝ) (hkf : 0 < kf) (hc0 : 0 < c0) (ht : 0 ≤ t) (s : σ) :
+    HasDerivAt (fun τ => binaryState a b p c0 c0 prod (prod + c0 - dimerizationIrrev τ (kf / 2) c0 0) s)
+      (valueAt (sysRates (binaryState a b p c0 c0 prod (prod + c0 - dimerizationIrrev t (kf / 2) c0 0))
+        (binaryIrrevSys a b p kf) none none) s) t ∧
+    (∀ τ, binaryState a b p c0 c0 prod (prod + c0 - dimerizationIrrev τ (kf / 2) c0 0) a = dimerizationIrrev τ (kf / 2) c0 0) ∧
+    dimerizationIrrev t (kf / 2) c0 0 = 1 / (1 / c0 + kf * t) ∧
+    dimerizationIrrev 0 (kf / 2) c0 0 = c0 := by
+  have hode := C17.dimerization_ode t (kf / 2) c0 0 (by positivity) hc0 ht
+  have hy : HasDerivAt (fun τ => prod + c0 - dimerizationIrrev τ (kf / 2) c0 0)
+      (-(-2 * (kf / 2) * (dimerizationIrrev t (kf / 2) c0 0) ^ 2)) t := hode.const_sub (prod + c0)
+  refine ⟨?_, ?_, ?_, ?_⟩
+  · refine (binaryState_hasDerivAt a b p hab hap hbp c0 c0 prod _ _ t hy s).congr_deriv ?_
+    rw [rhs_binaryIrrevSys a b p hab hap hbp]
+    have ha : binaryState a b p c0 c0 prod (prod + c0 - dimerizationIrrev t (kf / 2) c0 0) a
+        = dimerizationIrrev t (kf / 2) c0 0 := by simp [binaryState]; ring
+    have hb : binaryState a b p c0 c0 prod (prod + c0 - dimerizationIrrev t (kf / 2) c0 0) b
+        = dimerizationIrrev t (kf / 2) c0 0 := by simp [binaryState, hab.symm]; ring
+    rw [ha, hb]
+    split_ifs <;> ring
+  · intro τ; simp [binaryState]; ring
+  · simp only [dimerizationIrrev, Nat.cast_one, Nat.cast_ofNat]
+    have : 2 * (kf / 2) * (t - 0) = kf * t := by ring
+    rw [this]
+  · exact C17.dimerization_init (kf / 2) c0 0 hc0.ne'
+
+/-- **`dimerization_irrev` solves the system chempy generates for `2 A → P`**: `[A] = dimerization_irrev(t, kf, c₀)`,
+    `[P] = p₀ + (c₀ − [A])/2` have the derivatives `rates([A],[P])[s]` (`−2·kf·[A]²`, `kf·[A]²`, `0`) and start at `(c₀, p₀)`. -/
+theorem dimer_solves_system (a p : σ) (hap : a ≠ p) (kf p0 c0 t : ℝ) (hkf : 0 < kf) (hc0 : 0 < c0) (ht : 0 ≤ t) (s : σ) :
+    let A := fun τ => dimerizationIrrev τ kf c0 0
+    let c := fun τ (x : σ) => if x = a then A τ else if x = p then p0 + (c0 - A τ) / 2 else 0
+    HasDerivAt (fun τ => c τ s) (valueAt (sysRates (c t) (dimerSys a p kf) none none) s) t ∧ c 0 a = c0 ∧ c 0 p = p0 := by
+  intro A c
+  have hode : HasDerivAt A (-2 * kf * (A t) ^ 2) t := C17.dimerization_ode t kf c0 0 hkf hc0 ht
+  have h0 : A 0 = c0 := C17.dimerization_init kf c0 0 hc0.ne'
+  have hpa := hap.symm
+  refine ⟨?_, ?_, ?_⟩
+  · have hr : valueAt (sysRates (c t) (dimerSys a p kf) none none) s =
+        if s = a then -2 * kf * (A t) ^ 2 else if s = p then kf * (A t) ^ 2 else 0 := by
+      simp only [sysRates]
+      rw [valueAt_sysRatesNoFeed_contribution (c t) _ none s (by intro ks h; cases h)]
+      by_cases h1 : s = a
+      · subst h1
+        simp [dimerSys, contribution, coef, dgetD, dget?, concProd, hap, hpa, c]
+        ring
+      · by_cases h2 : s = p
+        · subst h2
+          simp [dimerSys, contribution, coef, dgetD, dget?, concProd, hap, hpa, h1, c]
+        · have e1 : ¬ a = s := fun e => h1 e.symm
+          have e2 : ¬ p = s := fun e => h2 e.symm
+          simp [dimerSys, contribution, coef, dgetD, dget?, h1, h2, e1, e2]
+    rw [hr]
+    by_cases h1 : s = a
+    · subst h1
+      simp only [c, if_true]
+      exact hode
+    · by_cases h2 : s = p
+      · subst h2
+        simp only [c, if_neg h1, if_true]
+        exact (((hode.const_sub c0).div_const 2).const_add p0).congr_deriv (by ring)
+      · simp only [c, if_neg h1, if_neg h2]
+        exact hasDerivAt_const t (0 : ℝ)
+  · simp [c, h0]
+  · simp [c, hpa, h0]
 
 end Bimolecular
 
